@@ -173,6 +173,15 @@ impl<'a> G<'a> {
         self.chain_txs.iter().any(|b| b.contains(&tx))
     }
 
+    /// a penalty spends its dispute: it can only be mined after it (earlier on the active chain, or earlier in
+    /// the same block).  Anything else is not a chain a Bitcoin node can present.
+    fn can_mine(&self, tx: u64, block: &[u64]) -> bool {
+        if self.mined(tx) || block.contains(&tx) {
+            return false;
+        }
+        self.pens.iter().filter(|p| p.1 == tx).all(|p| self.mined(p.0) || block.contains(&p.0))
+    }
+
     fn script_for(&mut self, txs: &[u64]) -> Script {
         let mut sc = Vec::new();
         for t in txs {
@@ -317,7 +326,7 @@ impl<'a> G<'a> {
             if !self.orphaned.is_empty() && self.rng.chance(1, 2) {
                 let o = self.orphaned.pop().unwrap();
                 for t in o {
-                    if !self.mined(t) && !txs.contains(&t) && self.rng.chance(4, 5) {
+                    if self.can_mine(t, &txs) && self.rng.chance(4, 5) {
                         txs.push(t);
                     }
                 }
@@ -338,7 +347,7 @@ impl<'a> G<'a> {
                     let known: Vec<u64> = self.pens.iter().filter(|p| p.0 == d).map(|p| p.1).collect();
                     if !known.is_empty() && self.rng.chance(1, 5) {
                         let p = *self.rng.pick(&known);
-                        if !self.mined(p) && !txs.contains(&p) {
+                        if self.can_mine(p, &txs) {
                             txs.push(p);
                         }
                     }
@@ -348,7 +357,7 @@ impl<'a> G<'a> {
             let pens = self.all_pens();
             if !pens.is_empty() && self.rng.chance(1, 3) {
                 let p = *self.rng.pick(&pens);
-                if !self.mined(p) && !txs.contains(&p) {
+                if self.can_mine(p, &txs) {
                     txs.push(p);
                 }
             }
@@ -370,7 +379,7 @@ impl<'a> G<'a> {
     fn connect_with(&mut self, want: &[u64], script: Script) {
         let mut txs: Vec<u64> = Vec::new();
         for t in want {
-            if !self.mined(*t) && !txs.contains(t) {
+            if self.can_mine(*t, &txs) {
                 txs.push(*t);
             }
         }
@@ -408,7 +417,11 @@ impl<'a> G<'a> {
 
 pub fn generate(rng: &mut Rng, profile: &str, index: u64) -> AHistory {
     // configurations: boundary values and production-like ones
-    let slots = *rng.pick(&[0u32, 1, 2, 3, 5, 8, 21, 21, 100]);
+    let mut slots = *rng.pick(&[0u32, 1, 2, 3, 5, 8, 21, 21, 100]);
+    if rng.chance(1, 25) {
+        // a second registration overflows the slot counter: "maximum slots reached", nothing may change
+        slots = *rng.pick(&[u32::MAX, 1u32 << 31, u32::MAX - 1]);
+    }
     let duration = *rng.pick(&[0u32, 1, 2, 3, 5, 8, 15, 30, 30, 200]);
     let delta = *rng.pick(&[0u32, 0, 1, 2, 3, 6]);
     let cfg = Cfg { slots, duration, delta };
@@ -529,9 +542,17 @@ pub fn generate(rng: &mut Rng, profile: &str, index: u64) -> AHistory {
             g.connect(false);
         } else {
             // a reorg: d disconnections, then usually at least d connections
-            let d = 1 + g.rng.below(3);
+            // mostly shallow; sometimes deeper than the watcher's 6-block cache
+            let d = if g.rng.chance(1, 6) { 4 + g.rng.below(6) } else { 1 + g.rng.below(3) };
             for _ in 0..d {
                 g.disconnect();
+            }
+            // requests served in the middle of the reorg
+            if g.rng.chance(1, 2) {
+                g.add();
+            }
+            if g.rng.chance(1, 3) {
+                g.get();
             }
             let c = if g.rng.chance(4, 5) { d + g.rng.below(2) } else { g.rng.below(d) };
             for _ in 0..c {
